@@ -26,6 +26,9 @@ def gaussianInputsAccepted (loc scale : ℝ) : Prop :=
 def pulseEpsilonNum : ℕ := 1
 def pulseEpsilonDen : ℕ := 1000000
 def pulseCheckNPoints : ℕ := 10
+/-- slack of the sampled monotonicity comparison of `Pulse._parametrization_is_valid` (`F(x+ε) >= F(x) - slack`) -/
+def pulseMonoTolNum : ℕ := 0
+def pulseMonoTolDen : ℕ := 1
 
 /-- `ConstantPulse`: `pulse=one`, `parametrization=identity`, `perform_checks=False`, `use_lookup=True` -/
 noncomputable def constantPulseWaveform (x : ℝ) : ℝ := (1 : ℝ)
